@@ -20,6 +20,7 @@ use super::{BasePath, ChangeExt};
 
 pub trait ActionContext {
     fn key_of(&self, node_id: NodeId) -> Key;
+    fn key_exists(&self, key: &Key) -> bool;
     fn collect(&self, key: &Key) -> Tree;
     fn squash(&self, key: &Key, depth: u8) -> Tree;
     fn random_key(&self, parent: &str) -> Key;
@@ -524,6 +525,19 @@ impl ActionProvider for ListToSections {
     }
 }
 
+/// the note a block reference can be inlined from: an existing note other than the one that
+/// holds the reference (the inlined note is deleted afterwards)
+fn inlinable_key(
+    tree: &Tree,
+    reference_id: NodeId,
+    key: &Key,
+    context: &impl ActionContext,
+) -> Option<Key> {
+    Some(tree.reference_key(reference_id))
+        .filter(|inline_key| inline_key != key)
+        .filter(|inline_key| context.key_exists(inline_key))
+}
+
 pub struct ReferenceInlineSection {}
 impl ActionProvider for ReferenceInlineSection {
     fn identifier(&self) -> String {
@@ -536,6 +550,7 @@ impl ActionProvider for ReferenceInlineSection {
         Some(target_id)
             .filter(|target_id| tree.get(*target_id).is_reference())
             .filter(|target_id| tree.get_surrounding_section_id(*target_id).is_some())
+            .filter(|target_id| inlinable_key(&tree, *target_id, &key, &context).is_some())
             .map(|_| Action {
                 title: "Inline section".to_string(),
                 identifier: self.identifier(),
@@ -549,7 +564,7 @@ impl ActionProvider for ReferenceInlineSection {
         Some(target_id)
             .filter(|target_id| tree.get(*target_id).is_reference())
             .and_then(|target_id| {
-                let inline_key = context.collect(&key).reference_key(target_id);
+                let inline_key = inlinable_key(&tree, target_id, &key, &context)?;
 
                 context
                     .collect(&key)
@@ -587,6 +602,7 @@ impl ActionProvider for ReferenceInlineQuote {
         let tree = context.collect(&key);
         Some(target_id)
             .filter(|target_id| tree.get(*target_id).is_reference())
+            .filter(|target_id| inlinable_key(&tree, *target_id, &key, &context).is_some())
             .map(|_| Action {
                 title: "Inline quote".to_string(),
                 identifier: self.identifier(),
@@ -600,9 +616,11 @@ impl ActionProvider for ReferenceInlineQuote {
 
         Some(target_id)
             .filter(|target_id| tree.get(*target_id).is_reference())
-            .map(|reference_id| {
-                let inline_key = context.collect(&key).reference_key(reference_id);
-
+            .and_then(|reference_id| {
+                inlinable_key(&tree, reference_id, &key, &context)
+                    .map(|inline_key| (reference_id, inline_key))
+            })
+            .map(|(reference_id, inline_key)| {
                 let quote = Tree {
                     id: None,
                     node: Node::Quote(),
